@@ -1,9 +1,9 @@
 // C10 correspondence harness: a cancelled evaluation does not damage earlier definitions.
 //
-// A case is a history  define* ; (use | cancelled-eval)*  run on ONE interpreter:
+// A case is a history  (define | use | cancelled-eval)*  run on ONE interpreter:
 //
-//	impl  = the values the uses return on the real interpreter (a use is an Eval of a call expression, or a
-//	        direct call by the host of a function value obtained earlier);
+//	impl  = the values the uses return on the real interpreter (a use is an Eval / EvalWithContext of a call
+//	        expression, or a direct call by the host of a function value obtained when it was defined);
 //	model = Lean `runHist` with the facts extracted from the source (y=): a definition whose frame id is stale
 //	        returns the zero value and keeps its state;
 //	spec  = Lean `runSpec` (g=): every definition keeps working;
@@ -68,19 +68,25 @@ type session struct {
 	ops     []opSeen
 	lastRID uint64
 	// a held cancelled evaluation: its goroutine is parked in the hook until release is closed
-	capture bool
-	lastGID int64
-	holdGID int64
-	release chan struct{}
+	capture  bool
+	opsBy    map[int64]int // while capture is on: operations seen per goroutine
+	holdGID  int64
+	release  chan struct{}
 	holdBase int
+	hung     bool // an evaluation of this session did not return
+	probe    reflect.Value
 }
 
 func newSession() *session {
 	fsys := fstest.MapFS{}
 	s := &session{ip: interp.New(interp.Options{GoPath: "./", SourcecodeFilesystem: fsys}), fsys: fsys, handles: map[int]reflect.Value{}}
 	// a stateless closure the cancelled evaluations of kind callloop call, and one that spins (spinclosure)
-	if _, out := s.eval("var Z = func(x int) int { return x + 1 }\nvar SP = func() int { n := 0; for { n++ }; return n }"); out != "" {
+	if _, out := s.eval("var Z = func(x int) int { return x + 1 }\nvar SP = func() int { n := 0; for { n++ }; return n }\nfunc PR(x int) int { return x + 7 }"); out != "" {
 		panic("session prelude: " + out)
+	}
+	// a stateless function held by the host: calling it tells whether the root frame is stale without changing anything
+	if v, out := s.eval("PR"); out == "" {
+		s.probe = v
 	}
 	return s
 }
@@ -106,7 +112,7 @@ func (s *session) hook(info interp.VerifStepInfo) {
 	if s.capture || s.holdGID != 0 {
 		g := curGID()
 		if s.capture {
-			s.lastGID = g
+			s.opsBy[g]++
 		}
 		if s.holdGID != 0 && g == s.holdGID {
 			wait = s.release
@@ -137,30 +143,51 @@ func (s *session) releaseHold() string {
 }
 
 func (s *session) eval(src string) (v reflect.Value, out string) {
-	defer func() {
-		if r := recover(); r != nil {
-			out = "crash:" + strings.ReplaceAll(fmt.Sprint(r), " ", "_")
-		}
-	}()
-	v, err := s.ip.Eval(src)
-	if err != nil {
-		return v, "err:" + strings.ReplaceAll(common.FirstLine(err.Error()), " ", "_")
+	return s.evalWith(src, func(src string) (reflect.Value, error) { return s.ip.Eval(src) })
+}
+
+const evalTimeout = 3 * time.Second
+
+// evalWith runs one evaluation with a bound on its duration: an evaluation that does not return is the outcome "hang"
+// (its goroutine is lost; every later evaluation of the session reports "hang" at once).
+func (s *session) evalWith(src string, f func(string) (reflect.Value, error)) (v reflect.Value, out string) {
+	if s.hung {
+		return v, "hang"
 	}
-	return v, ""
+	type res struct {
+		v   reflect.Value
+		out string
+	}
+	rc := make(chan res, 1)
+	go func() {
+		defer func() {
+			if r := recover(); r != nil {
+				rc <- res{out: "crash:" + strings.ReplaceAll(fmt.Sprint(r), " ", "_")}
+			}
+		}()
+		v, err := f(src)
+		if err != nil {
+			rc <- res{v, "err:" + strings.ReplaceAll(common.FirstLine(err.Error()), " ", "_")}
+			return
+		}
+		rc <- res{v, ""}
+	}()
+	select {
+	case r := <-rc:
+		return r.v, r.out
+	case <-time.After(evalTimeout):
+		s.hung = true
+		return v, "hang"
+	}
 }
 
 // evalCtx evaluates with a context that is never cancelled.
 func (s *session) evalCtx(src string) (v reflect.Value, out string) {
-	defer func() {
-		if r := recover(); r != nil {
-			out = "crash:" + strings.ReplaceAll(fmt.Sprint(r), " ", "_")
-		}
-	}()
-	v, err := s.ip.EvalWithContext(context.Background(), src)
-	if err != nil {
-		return v, "err:" + strings.ReplaceAll(common.FirstLine(err.Error()), " ", "_")
+	v, out = s.evalWith(src, func(src string) (reflect.Value, error) { return s.ip.EvalWithContext(context.Background(), src) })
+	if out != "hang" && s.release == nil {
+		settleEval() // its Execute has returned; the goroutine EvalWithContext started is on its way out
 	}
-	return v, ""
+	return v, out
 }
 
 // define evaluates the source of definition number i.
@@ -291,6 +318,25 @@ func (s *session) use(i int, kind, variant, via string, x int) (out string) {
 
 var gidRe = regexp.MustCompile(`^goroutine (\d+) \[([^\],]+)`)
 
+// evalGIDs returns the ids of the goroutines started by EvalWithContext that are alive.
+func evalGIDs(buf *[]byte) map[int64]bool {
+	for {
+		n := runtime.Stack(*buf, true)
+		if n == len(*buf) {
+			*buf = make([]byte, 2*len(*buf))
+			continue
+		}
+		out := map[int64]bool{}
+		for _, blk := range bytes.Split((*buf)[:n], []byte("\n\n")) {
+			if m := gidRe.FindSubmatch(blk); m != nil && bytes.Contains(blk, []byte("EvalWithContext.func1")) {
+				id, _ := strconv.ParseInt(string(m[1]), 10, 64)
+				out[id] = true
+			}
+		}
+		return out
+	}
+}
+
 // evalGoroutines returns the status of every goroutine started by EvalWithContext that is still alive.
 func evalGoroutines(buf *[]byte) []string {
 	for {
@@ -312,6 +358,19 @@ func evalGoroutines(buf *[]byte) []string {
 var stackBuf = make([]byte, 1<<18)
 var slowWaits int
 
+// leakedEval: goroutines started by EvalWithContext that are known not to end (none on the unchanged tree)
+var leakedEval int
+
+// settleEval waits until no goroutine started by EvalWithContext is alive, the known leaked ones apart.
+func settleEval() {
+	for deadline := time.Now().Add(time.Second); time.Now().Before(deadline); time.Sleep(30 * time.Microsecond) {
+		if len(evalGoroutines(&stackBuf)) <= leakedEval {
+			return
+		}
+	}
+	leakedEval = len(evalGoroutines(&stackBuf))
+}
+
 func blockedCount(st []string) int {
 	n := 0
 	for _, s := range st {
@@ -329,7 +388,12 @@ func (s *session) cancelled(kind string, n int) (string, string) {
 	s.mu.Lock()
 	s.ops = nil
 	s.mu.Unlock()
+	// the goroutines of earlier evaluations (an EvalWithContext that has returned its value may still be winding down)
+	// must be gone before this evaluation starts, so that "the goroutine of THIS evaluation has ended" can be told
+	// exactly: a host call made before the cancelled Execute has returned is a different event (F10-1)
+	settleEval()
 	base := evalGoroutines(&stackBuf) // goroutines leaked by earlier cancelled evaluations (none on the unchanged tree)
+	baseIDs := evalGIDs(&stackBuf)
 	ctx, cancel := context.WithCancel(context.Background())
 	defer cancel()
 	var src string
@@ -337,9 +401,14 @@ func (s *session) cancelled(kind string, n int) (string, string) {
 	case "loop":
 		src = fmt.Sprintf("for L%d := 0; ; L%d++ {}", n, n)
 	case "hold":
-		// the loop runs in a frame of its own: a loop in the root code would be revived by the root-id refresh of the
-		// evaluation that follows while this one is held (one evaluation at a time is an assumption of the property)
-		src = fmt.Sprintf("func() { for L%d := 0; ; L%d++ {} }()", n, n)
+		// the loop runs in a frame of its own (the closure SP): a loop in the root code would be revived by the root-id
+		// refresh of the evaluation that follows while this one is held (one evaluation at a time is an assumption of
+		// the property). Not `func() { for {} }()`: see litchan.
+		src = "SP()"
+	case "litchan":
+		// replay of F10-2 only: the interrupted top-level statement is a call of a function literal; the next
+		// evaluation executes it again
+		src = fmt.Sprintf("func() { B%d := make(chan int); <-B%d }()", n, n)
 	case "callloop":
 		src = fmt.Sprintf("for L%d := 0; ; L%d++ { Z(L%d) }", n, n, n)
 	case "spinclosure":
@@ -347,7 +416,8 @@ func (s *session) cancelled(kind string, n int) (string, string) {
 	case "chan":
 		src = fmt.Sprintf("B%d := make(chan int)\n<-B%d", n, n)
 	default:
-		src = fmt.Sprintf("E%d := 1\n_ = E%d", n, n)
+		// (long enough that the evaluation cannot normally finish before the watcher has looked at the context)
+		src = fmt.Sprintf("E%d := 1\nfor X%d := 0; X%d < 2000; X%d++ { E%d++ }", n, n, n, n, n)
 		cancel()
 	}
 	type ret struct {
@@ -364,6 +434,7 @@ func (s *session) cancelled(kind string, n int) (string, string) {
 		rc <- ret{err}
 	}()
 	// cancel once the evaluation is doing what the history says (or has returned by itself)
+	note := ""
 	var got *ret
 	returned := func() bool {
 		if got != nil {
@@ -380,30 +451,43 @@ func (s *session) cancelled(kind string, n int) (string, string) {
 	deadline := time.Now().Add(2 * time.Second)
 	switch kind {
 	case "loop", "callloop", "spinclosure", "hold":
-		if kind == "hold" {
-			s.mu.Lock()
-			s.capture = true
-			s.mu.Unlock()
-		}
-		for time.Now().Before(deadline) && !returned() {
-			s.mu.Lock()
-			n := len(s.ops)
-			s.mu.Unlock()
-			if n >= 8 {
-				break
+		// cancel once the goroutine of THIS evaluation is executing operations: operations of goroutines left behind by
+		// earlier events (the tail of a `go` statement in a function body) do not count — a cancellation that arrives
+		// while the source is still being compiled is not honoured, which is outside the histories of the property
+		s.mu.Lock()
+		s.capture, s.opsBy = true, map[int64]int{}
+		s.mu.Unlock()
+		var mine int64
+		for time.Now().Before(deadline) && !returned() && mine == 0 {
+			for id := range evalGIDs(&stackBuf) {
+				if baseIDs[id] {
+					continue
+				}
+				s.mu.Lock()
+				if s.opsBy[id] >= 8 {
+					mine = id
+				}
+				s.mu.Unlock()
 			}
-			time.Sleep(20 * time.Microsecond)
+			if mine == 0 {
+				time.Sleep(20 * time.Microsecond)
+			}
 		}
-		if kind == "hold" {
+		s.mu.Lock()
+		s.capture = false
+		if kind == "hold" && mine != 0 {
 			// park the goroutine of the evaluation at its next operation, then cancel: the call returns, its Execute does not
-			s.mu.Lock()
-			s.capture = false
-			s.holdGID, s.release, s.holdBase = s.lastGID, make(chan struct{}), len(base)
-			s.mu.Unlock()
+			s.holdGID, s.release, s.holdBase = mine, make(chan struct{}), len(base)
+		}
+		s.mu.Unlock()
+		if kind == "hold" {
 			time.Sleep(200 * time.Microsecond)
 		}
+		if mine == 0 {
+			note = "the evaluation did not start executing"
+		}
 		cancel()
-	case "chan":
+	case "chan", "litchan":
 		for time.Now().Before(deadline) && !returned() {
 			st := evalGoroutines(&stackBuf)
 			if len(st) == len(base)+1 && blockedCount(st) == blockedCount(base)+1 {
@@ -413,7 +497,6 @@ func (s *session) cancelled(kind string, n int) (string, string) {
 		}
 		cancel()
 	}
-	note := ""
 	if got == nil {
 		select {
 		case r := <-rc:
@@ -422,7 +505,13 @@ func (s *session) cancelled(kind string, n int) (string, string) {
 			note = "did not return"
 		}
 	}
-	if got != nil && got.err != context.Canceled {
+	completed := false
+	if got != nil && got.err == nil && kind == "expired" {
+		// with an already expired context the evaluation and the watcher race: here the evaluation finished before the
+		// watcher looked at ctx.Done() — nothing was cancelled, stop() did not run: an ordinary evaluation through
+		// EvalWithContext that defines nothing
+		completed = true
+	} else if got != nil && got.err != context.Canceled {
 		note = fmt.Sprintf("returned %v", got.err)
 	}
 	if kind == "hold" {
@@ -430,6 +519,9 @@ func (s *session) cancelled(kind string, n int) (string, string) {
 	}
 	if kind == "callloop" || kind == "spinclosure" {
 		kind = "loop" // the same event for the model
+	}
+	if kind == "litchan" {
+		kind = "chan"
 	}
 	// the goroutine EvalWithContext started must end (after ten that did not, the wait is cut short:
 	// the interpreter under test is broken and every such case is reported anyway)
@@ -446,10 +538,34 @@ func (s *session) cancelled(kind string, n int) (string, string) {
 	}
 	if !gone {
 		slowWaits++
+		leakedEval = len(evalGoroutines(&stackBuf))
 		note += " goroutine still alive"
+		if os.Getenv("C10_DEBUG") != "" {
+			n := runtime.Stack(stackBuf, true)
+			for _, blk := range bytes.Split(stackBuf[:n], []byte("\n\n")) {
+				if bytes.Contains(blk, []byte("EvalWithContext.func1")) {
+					fmt.Fprintf(os.Stderr, "STILL ALIVE (%s):\n%s\n\n", src, blk)
+				}
+			}
+		}
 	}
 	if kind != "expired" {
 		return kind, note
+	}
+	if completed {
+		return "completed", note
+	}
+	// the third order: the evaluation finished — its Execute returned — just before the watcher ran stop(): nothing has
+	// refreshed the root frame since, a direct host call finds it stale (the probe is stateless and refreshes nothing)
+	if s.probe.IsValid() && s.probe.Kind() == reflect.Func {
+		stale := func() (st bool) {
+			defer func() { recover() }()
+			r := s.probe.Call([]reflect.Value{reflect.ValueOf(1)})
+			return len(r) == 1 && r[0].Kind() == reflect.Int && r[0].Int() == 0
+		}()
+		if stale {
+			return "expl", note
+		}
 	}
 	// stop() before Execute refreshed the root frame: the operations ran under the new id
 	s.mu.Lock()
@@ -479,14 +595,10 @@ func runHistory(h History, cancels bool) (results []string, line string, finalID
 			}
 			kinds[ndef], variants[ndef] = e.Kind, e.Var
 			ndef++
-			parts = append(parts, fmt.Sprintf("(def %s %d %d)", e.Kind, e.A, e.B))
+			parts = append(parts, fmt.Sprintf("(def %s %d %d %s)", e.Kind, e.A, e.B, map[bool]string{true: "1", false: "0"}[e.Var == "chan"]))
 		case "use":
 			results = append(results, s.use(e.D, kinds[e.D], variants[e.D], e.Via, e.X))
-			via := e.Via
-			if via == "evalctx" {
-				via = "eval"
-			}
-			parts = append(parts, fmt.Sprintf("(use %d %s %d)", e.D, via, e.X))
+			parts = append(parts, fmt.Sprintf("(use %d %s %d)", e.D, e.Via, e.X))
 		case "cancel":
 			if !cancels {
 				continue
@@ -501,7 +613,11 @@ func runHistory(h History, cancels bool) (results []string, line string, finalID
 			if note != "" {
 				notes = append(notes, "cancelled evaluation: "+note)
 			}
-			parts = append(parts, "(cancel "+k+")")
+			if k == "completed" {
+				parts = append(parts, "(use 9999 evalctx 0)") // for the model: an evaluation that uses no definition
+			} else {
+				parts = append(parts, "(cancel "+k+")")
+			}
 		}
 		if held {
 			if note := s.releaseHold(); note != "" {
@@ -529,10 +645,47 @@ func runHistory(h History, cancels bool) (results []string, line string, finalID
 // classOf: the decidable class of use number u (index into the events) of the history.
 // F10-1: a direct call by the host made while the Execute of a cancelled evaluation has not returned yet (the event
 // right after a cancelled evaluation of kind hold).
+//
+// F10-3: a direct call by the host of a function value whose body blocks on a channel, with a cancelled evaluation
+// and no evaluation since (definitions and uses through Eval / EvalWithContext are evaluations; host calls are not).
 func classOf(h History, u int) string {
 	e := h.Evs[u]
-	if e.Via == "host" && u > 0 && h.Evs[u-1].Op == "cancel" && h.Evs[u-1].Kind == "hold" {
+	if e.Via != "host" {
+		return ""
+	}
+	if u > 0 && h.Evs[u-1].Op == "cancel" && h.Evs[u-1].Kind == "hold" {
 		return "host-call-before-cancelled-execute-returned"
+	}
+	// the other form of F10-1: the last evaluation before this call ran under an already expired context (its Execute
+	// may have returned before the watcher ran stop(): the root frame then stays stale until the next evaluation)
+	for i := u - 1; i >= 0; i-- {
+		x := h.Evs[i]
+		if x.Op == "cancel" {
+			if x.Kind == "expired" {
+				return "host-call-after-late-stop"
+			}
+			break
+		}
+		if x.Op == "def" || (x.Op == "use" && x.Via != "host") {
+			break
+		}
+	}
+	nd, blk := 0, false
+	for _, x := range h.Evs[:u] {
+		if x.Op == "def" {
+			if nd == e.D {
+				blk = x.Var == "chan"
+			}
+			nd++
+		}
+	}
+	for i := u - 1; i >= 0 && blk; i-- {
+		switch x := h.Evs[i]; {
+		case x.Op == "cancel":
+			return "host-call-chanop-after-cancel"
+		case x.Op == "def" || (x.Op == "use" && x.Via != "host"):
+			return ""
+		}
 	}
 	return ""
 }
@@ -773,8 +926,13 @@ func main() {
 		for k, v := range run.Res.Distribution {
 			savedDist[k] = v
 		}
+		savedErrs := append([]string(nil), run.Res.Errors...)
 		diff := check(h, false)
 		run.Res.Disagreements, run.Res.Distribution = saved, savedDist
+		if f.Status == "finding" {
+			// what a listed finding does to the session (an evaluation that hangs, …) is part of the finding
+			run.Res.Errors = savedErrs
+		}
 		run.Res.Known = append(run.Res.Known, common.KnownReplay{ID: f.ID, Status: f.Status, What: f.What, StillFails: diff != "", Detail: diff})
 	}
 	n := 200
